@@ -63,13 +63,9 @@ def powerSpectrum [Zero K] [Add K] [Mul K] (nz : K → Bool) (sqrt : K → K) (d
   let opd : Nat → K := fun i => x seed i * mask i
   opd i * sqrt (div (ofNat (countNonzero nz n opd)) (sumRange n fun i => opd i * opd i)) * rms
 
-/-- shapes inside `power_spectrum` for a mask of shape `(n, m)`: frequency grid / filter `H`, and the noise array.
-The element-wise product `fft2(noise) * H` is defined iff they agree. -/
-def psFilterShape (n m : Int) : Int × Int := (n, m)
-def psNoiseShape (n m : Int) : Int × Int := (n, m)
-
-/-- a cosmic-ray frame: every ray deposits `flux * dist` electrons at the pixels it crosses; `deps` lists
-(pixel, flux, distance) for all rays; the frame is `zeros(shape)` plus all deposits -/
+/-- the accumulation of `cosmic_rays`: `img = zeros(shape); for ray: img += _cosmic_ray(...)`, each ray frame being zeros plus
+`electron_flux * dist` at the pixels the ray crosses. `deps` lists (flattened pixel, flux, distance) of every deposit in the
+order they are added; the frame value at pixel `i` is the running sum of the deposits made there. -/
 def cosmicFrame [Zero K] [Add K] [Mul K] (deps : List (Nat × K × K)) (i : Nat) : K :=
   sumList deps fun d => if d.1 = i then d.2.1 * d.2.2 else 0
 
